@@ -82,6 +82,9 @@ type C18Case struct {
 	Mode  string `json:"mode"` // "error" | "wound"
 	Shape string `json:"shape"`
 	Info  string `json:"info,omitempty"`
+	// Interleave: a second file of the same pool is written (with its signed content) through a writer that is
+	// open at the same time, its Write calls falling between those of the file under test
+	Interleave bool `json:"interleave,omitempty"`
 }
 
 func c18Expand(c *C18Case) (S, D []byte, cuts []int) {
@@ -187,13 +190,21 @@ func min(a, b int) int {
 
 // c18Impl drives the real validating pool.
 func c18Impl(c *C18Case, S, D []byte, cuts []int) (string, error) {
-	sig, err := memSignature([][]byte{S})
+	files := [][]byte{S}
+	var S2 []byte
+	ir := wvlib.NewRng(c.Seed ^ 0x1e7)
+	if c.Interleave {
+		S2 = ir.Bytes(ir.Pick(1, pBS/2, pBS+pBS/3, 2*pBS+17))
+		files = append(files, S2)
+	}
+	sig, err := memSignature(files)
 	if err != nil {
 		return "", err
 	}
-	inner := &memWPool{memPool: memPool{files: [][]byte{S}}}
+	inner := &memWPool{memPool: memPool{files: files}}
 	vp := &pwr.ValidatingPool{Pool: inner, Container: sig.Container, Signature: sig}
 	var got []*pwr.Wound
+	var otherBad []string
 	var wg sync.WaitGroup
 	if c.Mode == "wound" {
 		vp.Wounds = make(chan *pwr.Wound, 16)
@@ -201,7 +212,11 @@ func c18Impl(c *C18Case, S, D []byte, cuts []int) (string, error) {
 		go func() {
 			defer wg.Done()
 			for w := range vp.Wounds {
-				got = append(got, w)
+				if w.Index == 0 {
+					got = append(got, w)
+				} else if w.Kind != pwr.WoundKind_CLOSED_FILE {
+					otherBad = append(otherBad, fmt.Sprintf("wound [%d,%d) on the other file although its signed content was written", w.Start, w.End))
+				}
 			}
 		}()
 	}
@@ -209,9 +224,48 @@ func c18Impl(c *C18Case, S, D []byte, cuts []int) (string, error) {
 	if err != nil {
 		return "", err
 	}
+	// the other writer of the same pool
+	var w2 io.WriteCloser
+	pos2 := 0
+	other := func(last bool) error {
+		if !c.Interleave {
+			return nil
+		}
+		if w2 == nil && pos2 == 0 {
+			var err error
+			if w2, err = vp.GetWriter(1); err != nil {
+				return err
+			}
+		}
+		if w2 == nil {
+			return nil
+		}
+		n := ir.Intn(len(S2)-pos2+1) / 2
+		if last {
+			n = len(S2) - pos2
+		}
+		if n > 0 {
+			if _, err := w2.Write(S2[pos2 : pos2+n]); err != nil {
+				return fmt.Errorf("writing the signed content of the other file fails: %v", err)
+			}
+			pos2 += n
+		}
+		if last {
+			err := w2.Close()
+			w2 = nil
+			if err != nil {
+				return fmt.Errorf("closing the other file (signed content written) fails: %v", err)
+			}
+		}
+		return nil
+	}
+	closeOtherEarly := ir.Bool()
 	pos, okCalls := 0, 0
 	failed := false
-	for _, n := range cuts {
+	for ci, n := range cuts {
+		if err := other(closeOtherEarly && ci == len(cuts)-1); err != nil {
+			return "", err
+		}
 		k, werr := w.Write(D[pos : pos+n])
 		pos += n
 		if werr != nil {
@@ -223,7 +277,26 @@ func c18Impl(c *C18Case, S, D []byte, cuts []int) (string, error) {
 		}
 		okCalls++
 	}
+	if !closeOtherEarly || len(cuts) == 0 {
+		// the other file is written to once more while the file under test has a partial block pending, and is
+		// closed either before or after it
+		if ir.Bool() {
+			if err := other(true); err != nil {
+				return "", err
+			}
+		} else if err := other(false); err != nil {
+			return "", err
+		}
+	}
 	cerr := w.Close()
+	if err := other(true); err != nil && w2 != nil {
+		return "", err
+	}
+	if c.Interleave {
+		if wb := inner.written[1]; wb == nil || !bytes.Equal(wb.Bytes(), S2) {
+			return "", fmt.Errorf("the other file's signed content did not reach the underlying pool unchanged")
+		}
+	}
 	if vp.Wounds != nil {
 		close(vp.Wounds)
 		wg.Wait()
@@ -233,6 +306,9 @@ func c18Impl(c *C18Case, S, D []byte, cuts []int) (string, error) {
 		closeS = "err"
 	}
 	_ = failed
+	if len(otherBad) > 0 {
+		return "", fmt.Errorf("%s", otherBad[0])
+	}
 	ib := inner.written[0].Bytes()
 	var sb strings.Builder
 	fmt.Fprintf(&sb, "calls=%d/%d close=%s inner=%d %d wounds=", okCalls, len(cuts), closeS, len(ib), wvlib.Fnv(ib))
@@ -412,7 +488,7 @@ func c18One(env *Env, m *wvlib.Model, c *C18Case) {
 
 func runC18(env *Env) {
 	R := env.R
-	R.Rule = "random (signed content, written content, slicing) cases, both modes; distinct by seed; non-trivial = written data differs from the signed content and is non-empty"
+	R.Rule = "random (signed content, written content, slicing) cases, both modes, a third of them with a second writer of the same pool open and written to in between; distinct by seed; non-trivial = written data differs from the signed content and is non-empty"
 	if env.Replay != "" {
 		var wrap struct {
 			Case C18Case `json:"case"`
@@ -446,7 +522,7 @@ func runC18(env *Env) {
 		if i%2 == 1 {
 			mode = "wound"
 		}
-		cases[i] = &C18Case{Seed: rng.Next(), Mode: mode, Shape: shapes[(i/2)%len(shapes)]}
+		cases[i] = &C18Case{Seed: rng.Next(), Mode: mode, Shape: shapes[(i/2)%len(shapes)], Interleave: i%3 == 2}
 	}
 	models := make(chan *wvlib.Model, env.Workers)
 	for i := 0; i < env.Workers; i++ {
